@@ -200,5 +200,20 @@ def check(s):
          "batch_size == (num_steps·num_envs) // num_batches", s.loc("PPO", "__init__"), key="batch-size")
     from .util import no_late_binding
     no_late_binding(s, "C09.2", ("lerax.buffer", "lerax.algorithm.ppo"), necessary_for="every field of a stored transition comes from the same insertion (a function value built in a loop must not read the loop variable late)")
-    for r_, n in (("C09.1", 4), ("C09.2", 6), ("C09.3", 3), ("C09.4", 9)):
+    # ---------------------------------------------------------------- C09.5 "each minibatch row is one collected sample with all of its fields
+    # still belonging together" starts where the row is written: observation, action, log-prob, value, mask and policy state of a row
+    # are those of ONE policy call on ONE observation (the policy state the call was made from, not the one it returned)
+    from .stepref import on_policy_rows
+    from ..vgraph import NONE as _NONE
+    for o in on_policy_rows(s):
+        for fld, refname, what in (("observations", "obs", "the observation acted on"), ("actions", "action", "the action of the policy call"),
+                                   ("log_probs", "logp", "the log-probability of that call"), ("values", "value", "the value of that call"),
+                                   ("action_masks", "mask", "the mask given to that call")):
+            s.eq("C09.5", o["con"], o["nz"], o["row"].get(fld, _NONE), o["ref"][refname], f"row.{fld} is {what}", o["loc"], key=f"row-{fld}",
+                 necessary_for="each minibatch row is one collected sample with all of its fields still belonging together")
+        s.eq("C09.5", o["con"], o["nz"], o["row"].get("states", _NONE), s.ref(o["b"], "state.policy_state", {"state": ("param", "state")}),
+             "row.states is the policy state the call was made from (the incoming one)", o["loc"], key="row-states",
+             necessary_for="each minibatch row is one collected sample with all of its fields (policy state included) still belonging together")
+
+    for r_, n in (("C09.5", 12), ("C09.1", 4), ("C09.2", 6), ("C09.3", 3), ("C09.4", 9)):
         s.floor(r_, n)
